@@ -871,7 +871,7 @@ class Interp(object):
     def call_builtin(self, f, args, kwargs):
         r = f.recv
         n = f.name
-        if any(isinstance(x, Unknown) for x in args) and n not in ('append', 'insert', 'update', 'dict', 'list',
+        if any(isinstance(x, Unknown) for x in args) and n not in ('append', 'insert', 'update', 'dict', 'list', 'map',
                                                                     'tuple', 'extend', 'setdefault', 'isinstance'):
             return Unknown('builtin arg')
         try:
@@ -889,6 +889,11 @@ class Interp(object):
                                 d[kv[0]] = kv[1]
                     d.update(kwargs)
                     return d
+                if n == 'map' and len(args) == 2 and isinstance(args[0], FuncV):
+                    seq = self.iterate(args[1])
+                    if seq is None:
+                        return Unknown('map()')
+                    return [self.call_func(args[0], [x], {}, None) for x in seq]
                 if n == 'list':
                     return list(self.iterate(args[0])) if args else []
                 if n == 'tuple':
@@ -989,7 +994,7 @@ class Interp(object):
         return Unknown('method %s' % n)
 
 
-BUILTINS = set('dict list tuple set frozenset len range sorted reversed enumerate zip min max sum abs int str bool '
+BUILTINS = set('map dict list tuple set frozenset len range sorted reversed enumerate zip min max sum abs int str bool '
                'chr ord hex bytes float round isinstance type print'.split())
 
 
